@@ -31,6 +31,24 @@ def run(ctx):
             res.ok("array-eq:elements", b.where())
         else:
             res.bad("array-eq:elements", "Array equality no longer reads the elements", b.where())
+    # identity shortcuts: `Arc::ptr_eq(a, b) || a == b` makes a value that contains NaN equal to its aliases but not to a
+    # copy with the same content (that is why `impl Eq for Variable` was removed, D18). Wherever a value is compared, identity
+    # may decide only for functions and cells.
+    shortcuts = []
+    for eb in lib.bodies.values():
+        if "::tests::" in eb.id:
+            continue
+        if not (eb.id.endswith("PartialEq>::eq") or eb.id.endswith("PartialEq>::ne") or "::eq::{closure" in eb.id) or not eb.id.startswith("<variable::"):
+            continue
+        for c in eb.calls:
+            if c.callee.endswith("::ptr_eq") and "function::Function" not in c.full and "r#mut::Mut" not in c.full:
+                shortcuts.append((eb, c))
+    if shortcuts:
+        eb, c = shortcuts[0]
+        res.bad("eq:identity-shortcut", "%s lets pointer identity (%s) decide the equality of a content value: an array / tuple / struct that "
+                                        "contains NaN then equals its aliases but not an equal copy" % (eb.id, c.full), eb.where(c.line))
+    else:
+        res.ok("eq:identity-shortcut", "", "no pointer-identity shortcut in the equality of content values")
     b = lib.body(VAR_EQ)
     if res.anchor(b is not None, VAR_EQ):
         ptr = [c for c in b.calls if c.callee == "std::sync::Arc::<T, A>::ptr_eq"]
